@@ -282,6 +282,35 @@ fn run_hcv(job: &Job) {
     mc::outcome(digest_rounded(&out));
 }
 
+/// Length sweep: every vector length n in 1..=200 x k in 1..=8 classes (cyclic and blocked
+/// layouts) x {labels_true constant, labels_pred constant, both constant, identical labellings}.
+/// The scores' special values (1 for a zero conditional entropy / single class) must hold at EVERY
+/// length, not only at the small lengths the exhaustive families reach.
+fn run_hcvlen(job: &Job) {
+    let seed = job.params["seed"].as_u64().unwrap_or(0);
+    let n = job.u("n");
+    let k = 1 + mc::choose(8);
+    let mode = mc::choose(4);
+    let layout = mc::choose(2);
+    let other: Vec<usize> = (0..n).map(|i| if layout == 0 { i % k } else { i * k / n }).collect();
+    let constant = vec![mc::choose(2) * 5; n];
+    let (ci, ki) = match mode {
+        0 => (constant.clone(), other.clone()),
+        1 => (other.clone(), constant.clone()),
+        2 => (constant.clone(), constant.clone()),
+        _ => (other.clone(), other.clone()),
+    };
+    let (mt, mp) = (offset_map(&RENAMINGS[0].1, seed), offset_map(&RENAMINGS[1].1, seed));
+    let origin = || format!(" [length sweep n={} k={} {} layout, {}]", n, k, ["cyclic", "blocked"][layout], ["labels_true constant", "labels_pred constant", "both constant", "identical labellings"][mode]);
+    let out = hcv_case(&ci, &ki, &mt, &mp, &[(0, 3)], true, &origin);
+    mc::count("hcv_length_sweep");
+    if n > 64 {
+        mc::count("hcv_length_sweep_n_above_64");
+    }
+    mc::nontrivial();
+    mc::outcome(digest_rounded(&out));
+}
+
 /// every a x b contingency table with entries from a small alphabet
 fn run_tab(job: &Job) {
     let (a, b) = (job.u("a"), job.u("b"));
@@ -438,6 +467,10 @@ impl Harness for C15 {
             radices.push(3);
             push_split(&mut jobs, &format!("tab-{}x{}-c{}", a, b, cells.iter().map(|c| c.to_string()).collect::<Vec<_>>().join("_")), json!({"kind": "tab", "a": a, "b": b, "cells": cells, "seed": seed}), &radices, cap / 4);
         }
+        // length sweep (both tiers: it is cheap)
+        for n in 1..=200usize {
+            jobs.push(Job::new(format!("hcvlen-n{}", n), json!({"kind": "hcvlen", "n": n, "seed": seed})));
+        }
         // product / identical / refinement layouts, 1..8 classes each
         let nmax = if t { 200 } else { 64 };
         for a in 1..=8usize {
@@ -482,6 +515,8 @@ impl Harness for C15 {
             budget_s: if t { 2700 } else { 40 },
             case_deadline_ms: 20_000,
             floors: vec![
+                ("hcv_length_sweep", 20_000),
+                ("hcv_length_sweep_n_above_64", 10_000),
                 ("binary_pairs", 80_000),
                 ("binary_by_confusion_counts", 100_000),
                 ("binary_single_positive_or_negative", 1_000),
@@ -511,6 +546,7 @@ impl Harness for C15 {
                 ("hcv_renamed", 1_000_000),
             ],
             bounds: json!({
+                "hcv_length_sweep": "every length n=1..200 x k=1..8 classes x {cyclic, blocked} layout x {labels_true constant, labels_pred constant, both constant, identical labellings} x 2 constant label values: homogeneity / completeness / V-measure (methods and free functions) against their definitions incl. the special value 1",
                 "binary_metrics": format!("accuracy, precision, recall, F-beta (beta in 1, 1/2, 2), f64 and f32: every pair of binary vectors of length 1..{}; every confusion-count vector (tp,fp,fn,tn) with sum n for n in {:?} x 3 layouts", bin_max, summarize(&conf_ns)),
                 "accuracy_multiclass": format!("every pair over 3 label values, length 1..{}", if t { 7 } else { 5 }),
                 "length_mismatch": format!("every ordered pair of different lengths from {:?} x 3 fill patterns x 7 pairwise metrics x f64/f32", MISMATCH_LENGTHS),
@@ -535,6 +571,7 @@ impl Harness for C15 {
             "regs" => run_regs(job),
             "hcv" => run_hcv(job),
             "tab" => run_tab(job),
+            "hcvlen" => run_hcvlen(job),
             "prod" => run_prod(job),
             other => panic!("unknown job kind {}", other),
         }
